@@ -125,7 +125,11 @@ NIX_CANARY(NDSize_isub_scalar) __CPROVER_assigns(self->rank > 0: __CPROVER_objec
 
 /* ---- value semantics helpers (definitional adapters, not contracts) ---------------------------- */
 /* address of a temporary: C++ binds 'const NDSize&' to a temporary; C needs an object */
+#ifdef NIX_TMP_LITERAL     /* address of a temporary without malloc (dynamic allocation is not allowed inside a loop under a loop contract) */
+#define TMP_NDSize(v) ((NDSize[1]){(v)})
+#else
 static inline NDSize *TMP_NDSize(NDSize v) { NDSize *p = malloc(sizeof(NDSize)); __CPROVER_assume(p != NULL); *p = v; return p; }
+#endif
 static inline NDSize NDSize_default(void)
 { NDSize r; r.rank = 0; r.dims = NULL; return r; }   /* NDSizeBase(): rank(0), dims(nullptr) */
 
